@@ -239,11 +239,22 @@ W_VJP = "argument {k} of shape (1,) or a Python scalar against the other argumen
 W_JVP = "the differentiated argument smaller than the broadcast result (e.g. shape () against (2,3)): the tangent does not have the output's shape"
 
 
-def vjp(ctx, world):
+def vjp_locally_constant(ctx, world):
+    """C14: an argument the function depends on only piecewise-constantly (the condition of where, ...) must get an
+    exact zero OF ITS OWN SPACE; when the rule is written out instead of the declarative None, its result must
+    have the shape support of that argument."""
+    from .common import locally_constant_arg
+
+    vjp(ctx, world, only=lambda e: e.argnum is not None and locally_constant_arg(world, e.prim, e.argnum)[0], floor=False)
+
+
+def vjp(ctx, world, only=None, floor=True):
     ctx.describe("A3.vjp", "for every VJP rule of a broadcasting primitive (binary ufuncs by metadata + where/clip/cross/full/matmul/einsum) the backward-time result has shape support exactly {the differentiated argument}: it passes through unbroadcast (or an equivalent reduction) aimed at that argument on every path")
     n = 0
     for e in world.table.entries:
         if e.mode != "vjp" or e.spec != "maker" or not world.in_numpy_scope(e):
+            continue
+        if only is not None and not only(e):
             continue
         ba = broadcasting_args(world, e.prim)
         if ba is None:
@@ -287,7 +298,10 @@ def vjp(ctx, world):
             ctx.ob("A3.vjp", construct_of(e), None, e.loc, sample=nf + " " + "; ".join(S.why))
         else:
             ctx.ob("A3.vjp", construct_of(e), True, e.loc, sample=nf)
-    ctx.floor("A3.vjp instances", n, 32)
+    if floor:
+        ctx.floor("A3.vjp instances", n, 32)
+    else:
+        ctx.ob("A3.vjp", "written-out rules of locally constant arguments have the argument's shape support", True, "autograd/numpy/*", nontrivial=False)
 
 
 def jvp(ctx, world):
